@@ -190,6 +190,34 @@ def gen_inputs(tier):
         for t in [""] + simple_tails:
             for hn, h in chosts.items():
                 yield ("cycle/" + hn, {"model.yml": HOST + "G<T>: T*\n" + cyc + h % q(base + t)}, PKG)
+    # (2e') the same cycles living in an imported package (and in the import of an import) while the root package is clean, and
+    #       the other way round; every later pass runs over all namespaces, whichever one reported the cycle
+    for base in ("CA", "RC", "CG<int>"):
+        for t in ("", "->int", "*", "?"):
+            for hn in ("alias", "items", "enumbase", "field"):
+                use = chosts[hn] % q(base + t)
+                clean = "Okay: int\n"
+                for layout in ("import", "import-of-import", "root-and-clean-import"):
+                    if layout == "import":
+                        fs = {"p0/model.yml": clean, "p1/_package.yml": "namespace: Imp\n", "p1/model.yml": "G<T>: T*\n" + cyc + use}
+                        man = "namespace: T\nimports:\n  - ../p1\n"
+                    elif layout == "import-of-import":
+                        fs = {"p0/model.yml": clean, "p1/_package.yml": "namespace: Imp\nimports:\n  - ../p2\n", "p1/model.yml": clean,
+                              "p2/_package.yml": "namespace: Imp2\n", "p2/model.yml": "G<T>: T*\n" + cyc + use}
+                        man = "namespace: T\nimports:\n  - ../p1\n"
+                    else:
+                        fs = {"p0/model.yml": "G<T>: T*\n" + cyc + use, "p1/_package.yml": "namespace: Imp\n", "p1/model.yml": clean}
+                        man = "namespace: T\nimports:\n  - ../p1\n"
+                    yield ("importgraph-cycle/" + layout + "/" + hn, fs, man)
+    # (2j) enum / flags values at the edges of 64 bits followed by a value that yardl has to choose itself
+    edge_vals = ["0", "1", "-1", "0x7fffffffffffffff", "0x8000000000000000", "0xffffffffffffffff", "-0x8000000000000000", "0x10000000000000000",
+                 "9223372036854775808", "18446744073709551615", "18446744073709551616", "-9223372036854775809"]
+    for kind in ("!enum", "!flags"):
+        for bt in (None, "uint64", "int64", "uint8", "int8", "size"):
+            for ev in edge_vals:
+                for body in ("  values:\n    first: %s\n    next:\n" % ev, "  values:\n    first: %s\n    next:\n    third:\n" % ev,
+                             "  values:\n    zero: 0\n    first: %s\n    next:\n" % ev):
+                    yield ("enum-edges/" + kind[1:], {"model.yml": HOST + "W: %s\n%s%s" % (kind, ("  base: %s\n" % bt) if bt else "", body)}, PKG)
     # (2f) YAML anchors and aliases in every position of a small model (keys, type expressions, dimension maps, values)
     anchor_vals = ["", "int", "~", "[int, string]", "!vector {items: int}", "{x: 2}"]
     for av in anchor_vals:
